@@ -123,14 +123,12 @@ func Decode(reader io.Reader, values ...interface{}) (err error) {
 			}
 
 			// Nothing to be decoded when length is zero.
-			if length == 0 {
-				break
-			}
-
 			var data ByteSlice = make([]byte, length)
-			err = data.Decode(reader)
-			if err != nil {
-				return errors.WithMessage(err, "reading binary data")
+			if length != 0 {
+				err = data.Decode(reader)
+				if err != nil {
+					return errors.WithMessage(err, "reading binary data")
+				}
 			}
 
 			err = v.UnmarshalBinary(data)
